@@ -413,7 +413,54 @@ func gateDiscarded(out *rec) {
 			out.emit(map[string]interface{}{"a": "Disc", "how": how, "fin": fin, "calls": calls, "written": w.n, "enabled": enabled})
 		}
 	}
+	// the chain continues on what Discard() RETURNS (the documented form: log.Info().Discard().Msg(...)): a filtered event like
+	// any other - no hook, no MsgFunc / Func callback, no marshaler, no write, and a Panic event that was discarded does not panic
+	for _, entry := range []string{"Info", "Panic", "WithLevelFatal"} {
+		for _, fin := range []string{"Msg", "Msgf", "Send", "MsgFunc"} {
+			calls := 0
+			w := &lvlW{}
+			lg := zerolog.New(w).Hook(countHook{&calls})
+			var e *zerolog.Event
+			switch entry {
+			case "Info":
+				e = lg.Info()
+			case "Panic":
+				e = lg.Panic()
+			default:
+				e = lg.WithLevel(zerolog.FatalLevel)
+			}
+			func() {
+				defer func() {
+					if recover() != nil {
+						calls += 1000
+					}
+				}()
+				d := e.Str("k", "v").Discard()
+				enabled := d.Enabled()
+				d = d.Func(func(*zerolog.Event) { calls++ }).Object("o", countObj{&calls}).Stringer("s", countStr{&calls})
+				switch fin {
+				case "Msg":
+					d.Msg("m")
+				case "Msgf":
+					d.Msgf("m%v", countStr{&calls})
+				case "Send":
+					d.Send()
+				case "MsgFunc":
+					d.MsgFunc(func() string { calls++; return "m" })
+				}
+				out.emit(map[string]interface{}{"a": "Disc", "how": "chain-" + entry, "fin": fin, "calls": calls, "written": w.n, "enabled": enabled})
+			}()
+		}
+	}
 }
+
+type countObj struct{ calls *int }
+
+func (o countObj) MarshalZerologObject(e *zerolog.Event) { *o.calls++ }
+
+type countStr struct{ calls *int }
+
+func (o countStr) String() string { *o.calls++; return "s" }
 
 type closeW struct{ f *os.File }
 
